@@ -423,6 +423,23 @@ func init() {
 func isPunct(k string) bool { return len(k) > 0 && !(k[0] >= 'a' && k[0] <= 'z') && !(k[0] >= 'A' && k[0] <= 'Z') }
 
 // lexeme and literal value of the i-th token (1-based) of kind k
+// In layouts 2 and 5 string tokens spell keywords ("on", "query", ...): a string is never a keyword,
+// whatever it contains.
+var keywordStrings = []string{"on", "query", "fragment", "implements", "type", "true", "null", "extend", "mutation", "schema"}
+
+func lexemeOfIn(k string, i, layout int) (text, val string) {
+	if layout == 2 || layout == 5 {
+		kw := keywordStrings[i%len(keywordStrings)]
+		switch k {
+		case "String":
+			return `"` + kw + `"`, kw
+		case "BlockString":
+			return `"""` + kw + `"""`, kw
+		}
+	}
+	return lexemeOf(k, i)
+}
+
 func lexemeOf(k string, i int) (text, val string) {
 	switch k {
 	case "Name":
@@ -511,7 +528,7 @@ func renderTokens(kinds []string, layout int) *rendered {
 				emit(u)
 			}
 		}
-		text, val := lexemeOf(k, i+1)
+		text, val := lexemeOfIn(k, i+1, layout)
 		r.tk.start[i+1] = len(r.text)
 		emit(text)
 		r.tk.end[i+1] = len(r.text)
